@@ -79,6 +79,8 @@ def build_metric(name):
         return M.MedianAbsoluteError()
     if name == "asym":
         return M.MeanAsymmetricError(asymmetric_threshold=0.0, left_error_function="squared", right_error_function="absolute")
+    if name == "asym_thr":
+        return M.MeanAsymmetricError(asymmetric_threshold=1.5, left_error_function="absolute", right_error_function="squared")
     if name == "asym_fn":
         return M.make_forecasting_scorer(_asym_fn, name="asym_fn", greater_is_better=False)
     if name == "neg_mae":
@@ -108,7 +110,10 @@ def metric_reference(name):
             "mse": lambda t, p: float(np.mean((A(t) - A(p)) ** 2)), "rmse": lambda t, p: float(np.sqrt(np.mean((A(t) - A(p)) ** 2))),
             "mae": lambda t, p: float(np.mean(np.abs(A(t) - A(p)))), "mdae": lambda t, p: float(np.median(np.abs(A(t) - A(p)))),
             "rmspe": lambda t, p: float(np.sqrt(np.mean(pe(t, p) ** 2))), "mdspe": lambda t, p: float(np.median(pe(t, p) ** 2)),
-            "rmdspe_sym": lambda t, p: float(np.sqrt(np.median(spe(t, p) ** 2)))}.get(name)
+            "rmdspe_sym": lambda t, p: float(np.sqrt(np.median(spe(t, p) ** 2))),
+            # errors below the threshold get the left function, the others the right one (written out)
+            "asym": lambda t, p: float(np.mean([(e * e) if e < 0.0 else abs(e) for e in (A(t) - A(p)).tolist()])),
+            "asym_thr": lambda t, p: float(np.mean([abs(e) if e < 1.5 else (e * e) for e in (A(t) - A(p)).tolist()]))}.get(name)
 
 
 def _asym_fn(y_true, y_pred):
@@ -129,6 +134,8 @@ def build_transformer(spec):
     if kind == "detrend":
         from sktime.forecasting.trend import PolynomialTrendForecaster
         from sktime.transformations.series.detrend import Detrender
+        if p.get("default"):
+            return Detrender()            # no forecaster given: the documented default is a linear trend
         return Detrender(PolynomialTrendForecaster(degree=p.get("degree", 1)))
     if kind == "deseason":
         from sktime.transformations.series.detrend import Deseasonalizer
@@ -393,8 +400,11 @@ def random_spec(rng, depth=2, allow_slow=False, allow_fh_required=True, positive
     if kind == "ensemble":
         p = {"aggfunc": ["mean", "median", "min", "max"][int(rng.integers(0, 4))]}
         members = [sub() for _ in range(int(rng.integers(2, 4)))]
-        if rng.random() < 0.12:
+        r_ = rng.random()
+        if r_ < 0.12:
             p["n_jobs"] = 2        # joblib's default backend: members are fitted / updated in worker processes
+        elif r_ < 0.24:
+            p["n_jobs"] = 1        # explicitly sequential: joblib runs the member fits in this process
         return ["ensemble", p, members]
     if kind == "pipeline":
         k = int(rng.integers(1, 3))
